@@ -1,7 +1,7 @@
 check(
     "C01",
     "runtime monitoring: exhaustive unit-pair sweep of the real databases under API probes; round-trip / path / monotonicity oracle with running float-error scale",
-    "Held on every ordered unit pair (and, thorough, every triple) of all three self-built databases for a hostile + seeded value set; exhaustive in the table dimension, sampled in the value dimension. A run decides only what it executed.",
+    "Held on every ordered unit pair (and, thorough, every triple) of all three self-built databases for a hostile + seeded value set: identity exact for floats, ints, lists, tuples, float/int ndarrays and FractionValue on every unit, round trip, path independence, monotonicity, the (unit, 1) list/tuple overload against the string form, and a history-independence pass (a sample of pairs asked again after the sweep and after the same labels went through the Unknown type must answer bit for bit like a fresh database). Exhaustive in the table dimension, sampled in the value dimension.",
     "Trusts CPython float arithmetic and the error-scale analysis (K=16 x 2^-53 x magnitude of offsets and scaled value); coefficients are read observationally through the conversion functions.",
     "4/C01",
 )
@@ -36,8 +36,8 @@ check(
 check(
     "C06",
     "runtime monitoring: exhaustive sweep of the live table - factors observed through the real conversion functions (both directions) and through Scalar arithmetic, judged by a unit-symbol grammar oracle with written-precision tolerance",
-    "Exhaustive over the 1548 rows of the shipped table: 914 decomposable rows compared (both conversion directions + dynamic composition with barril's own arithmetic), 141 SI-prefixed atomic rows; 34 inconsistent rows are listed as known findings keyed by row and wrong ratio.",
-    "Tolerance = 16 x the precision the row is written in (calibrated: empty gap between ratio 15 and 647 on the pinned table) with floor 2e-5; rows with offsets, multi-slash symbols and ambiguous F/C factors are skipped, never alarmed on.",
+    "Exhaustive over the 1548 rows of the shipped table: ~930 decomposable rows compared (single-slash grammar plus multi-slash symbols read left to right with registered compound pieces; both conversion directions + dynamic composition with barril's own arithmetic), 141 SI-prefixed atomic rows; 34 inconsistent rows are listed as known findings keyed by row and wrong ratio.",
+    "Tolerance = 16 x the precision the row is written in (calibrated: empty gap between ratio 15 and 647 on the pinned table; large integer literals keep their trailing zeros as digits) with a float-noise floor of 1e-9; rows with offsets, symbols the grammar cannot read and ambiguous F/C factors are skipped, never alarmed on.",
     "4/C06",
 )
 check(
